@@ -1,5 +1,85 @@
-import Mkdb.Spec.Tables
-import Mkdb.Spec.Shape
-import Mkdb.Model.Engine
-namespace Mkdb.Store
-end Mkdb.Store
+import Mkdb.Proofs.Tree
+/-!
+# C11 — the on-disk B+ tree keeps its shape invariants
+
+Property theorems only, about the levels model `Mkdb.Tree` of storage/btree.go `insertKey` /
+`insertLeaf` / `insertInternal` / `btreeNode.split`, `updateCell`, the tombstone flag and `findCell`.
+The invariant `Inv` (Mkdb/Spec/TreeInv.lean) is the C11 statement clause by clause: capacity,
+strictly ascending keys within and across leaves, separators = lowest key of the right subtree
+(so every subtree's keys lie inside its parent's bounds), all leaves at one depth and one parent
+per node (`LinkOK`), no page twice (`OffsOK`), the doubly linked leaf chain = the leaves in tree
+order (`ChainOK`).  Quantifier: every history of inserts with ascending keys, value changes and
+deletions, of any length - any number of leaf splits, internal splits at any depth and root
+growths; no bound.  Flushes and reloads do not change the logical pages (C12: the page codec
+round-trips; C16: the cache is transparent), so they are not operations of this model.
+
+The levels model is tied to the code through the heap model `Mkdb.Store` (compared page for page
+with the implementation): every insert the heap model performs is cross-checked against
+`insertAppend` on the tree read out of the heap (`Store.ghostAgrees`).
+-/
+namespace Mkdb.Tree
+open Mkdb.Page Mkdb.Generated
+
+/-- a tree operation as the engine and log replay issue them -/
+inductive TOp where
+  | ins (key lsn : Nat) (v : Bytes)
+  | upd (key lsn : Nat) (v : Bytes)
+  | del (key lsn : Nat)
+
+/-- one operation on a tree and the allocation frontier; a refused insert changes nothing -/
+def applyOp (s : Levels × Nat) : TOp → Levels × Nat
+  | .ins k lsn v => match insertAppend s.1 k lsn v s.2 with
+    | .ok r => r
+    | .error _ => s
+  | .upd k lsn v => (setVal s.1 k lsn v, s.2)
+  | .del k lsn => (setDeleted s.1 k lsn, s.2)
+
+def runOps (s : Levels × Nat) (ops : List TOp) : Levels × Nat := ops.foldl applyOp s
+
+/-- **C11.created_well_formed**: the one-leaf tree CREATE TABLE / CREATE DATABASE start from is well formed. -/
+theorem C11_created_well_formed (off nf : Nat) (h : off < nf) : Inv (emptyTree off) nf := emptyTree_inv off nf h
+
+/-- **C11.insert_preserves**: an insert - with whatever leaf split, separator propagation, internal
+splits and root growth it causes - takes a well-formed tree to a well-formed tree. -/
+theorem C11_insert_preserves (t t' : Levels) (k lsn nf nf' : Nat) (v : Bytes) (hinv : Inv t nf)
+    (h : insertAppend t k lsn v nf = .ok (t', nf')) : Inv t' nf' := insertAppend_inv t t' k lsn nf nf' v hinv h
+
+theorem applyOp_inv (s : Levels × Nat) (op : TOp) (h : Inv s.1 s.2) : Inv (applyOp s op).1 (applyOp s op).2 := by
+  cases op with
+  | ins k lsn v =>
+    simp only [applyOp]
+    split
+    · rename_i r hr
+      exact insertAppend_inv s.1 r.1 k lsn s.2 r.2 v h hr
+    · exact h
+  | upd k lsn v => exact setVal_inv s.1 k lsn s.2 v h
+  | del k lsn => exact setDeleted_inv s.1 k lsn s.2 h
+
+/-- **C11.every_history**: after any history of insertions, value changes and deletions, starting from
+a freshly created table, the tree is well formed. -/
+theorem C11_every_history (off nf : Nat) (h : off < nf) (ops : List TOp) :
+    Inv (runOps (emptyTree off, nf) ops).1 (runOps (emptyTree off, nf) ops).2 := by
+  have : ∀ (s : Levels × Nat), Inv s.1 s.2 → Inv (runOps s ops).1 (runOps s ops).2 := by
+    induction ops with
+    | nil => intro s hs; exact hs
+    | cons op rest ih => intro s hs; exact ih _ (applyOp_inv s op hs)
+  exact this _ (emptyTree_inv off nf h)
+
+/-- **C11.lookup_finds_every_key**: in a well-formed tree every stored key - live or tombstoned - is
+found by point lookup from the root (`findCell`'s routing over the separators). -/
+theorem C11_lookup_finds_every_key (t : Levels) (nf : Nat) (hinv : Inv t nf) (c : LeafCell) (hc : c ∈ cells t) :
+    lookup t c.key = some c := lookup_finds t nf hinv c hc
+
+/-- …hence after every history -/
+theorem C11_lookup_after_history (off nf : Nat) (h : off < nf) (ops : List TOp) (c : LeafCell)
+    (hc : c ∈ cells (runOps (emptyTree off, nf) ops).1) :
+    lookup (runOps (emptyTree off, nf) ops).1 c.key = some c :=
+  lookup_finds _ _ (C11_every_history off nf h ops) c hc
+
+/-- non-vacuity: 20 inserts from the empty tree force three leaf splits and a root; the result has
+4 leaves under one internal node -/
+example : ((runOps (emptyTree 4096, 8192) ((List.range' 1 20).map fun k => .ins k 0 [])).1.leaves.length,
+    (runOps (emptyTree 4096, 8192) ((List.range' 1 20).map fun k => .ins k 0 [])).1.inner.length) = (4, 1) := by
+  decide
+
+end Mkdb.Tree
